@@ -340,7 +340,7 @@ func checkC14(replay string) {
 	nProg := r.Pick(12, 300)
 	cfgs := []gen.Cfg{}
 	for _, st := range []bool{false, true} {
-		for _, ep := range [][]string{{}, {"testdata"}, {"gen_legacy", "gen_old"}, {"zz_skip", "gen_legacy", "testdata", "Gen_Old"}, {"u1/gen_legacy", "zz_skip_pkg/", "/d0/gen_"}} {
+		for _, ep := range [][]string{{}, {"testdata"}, {"gen_legacy", "gen_old"}, {"zz_skip", "gen_legacy", "testdata", "Gen_Old"}, {"u1/" + gen.PoolTokens[1%len(gen.PoolTokens)], "zz_skip_pkg/", "/d0/gen_", "u1/" + gen.PoolTokens[2%len(gen.PoolTokens)] + "_y"}} {
 			cfgs = append(cfgs, gen.Cfg{ScanTests: st, ExcludePaths: ep})
 		}
 	}
